@@ -1,5 +1,8 @@
 (* C11 driver: token grammar in checks/C11.py / harness/C11.cpp
-   scenario ::= [:ri] <all_sep> <ntests> ([:ign] test)*     observation ends with :end <failures> <isFailure> <run> <ignored> <late> *)
+   scenario ::= [:ri] <all_sep> <ntests> ([:ign] test)*                                   one pass
+              | :m <nsteps> step*         step ::= <sep on> <ri on> <nadd> mcase*     mcase ::= [:from <k>] [:own] [:ign] test
+                (several passes over one registry)
+   observation: per pass  item* :end <failures> <isFailure> <run> <ignored> <late>;  then :died <pass> <how> <n> if the runner died *)
 let hexi i = Printf.sprintf "%x" i
 let wout c =
   match next c with
@@ -34,33 +37,54 @@ let tcase c =
   match peek c with
   | Some ":ign" -> ignore (next c); { c_ign = true; c_test = test c }
   | _ -> { c_ign = false; c_test = test c }
-(* scenario: optional leading flag :ri (run-ignored switch), then <all_sep> <ntests> case* *)
-let scenario ts =
-  let c = { rest = ts } in
+(* one-pass scenario: optional leading flag :ri (run-ignored switch), then <all_sep> <ntests> case* *)
+let scenario1 c =
   let ri = (match peek c with Some ":ri" -> ignore (next c); true | _ -> false) in
   let all = bool_tok (next c) in
   let l = counted c tcase in
-  if not (at_end c) then raise (Bad "trailing tokens");
   { s_all_sep = all; s_run_ign = ri; s_tests = l }
+(* a test of a several-pass program: [:from <k>] [:own] [:ign] test *)
+let mcase c =
+  let from = (match peek c with Some ":from" -> ignore (next c); nat_tok (next c) | _ -> nat_of_int 0) in
+  let own = (match peek c with Some ":own" -> ignore (next c); true | _ -> false) in
+  let tc = tcase c in
+  { m_from = from; m_own = own; m_case = tc }
+(* step ::= <separate-process switched on 0|1> <run-ignored switched on 0|1> <n> mcase*n *)
+let step c =
+  let sep = bool_tok (next c) in
+  let ri = bool_tok (next c) in
+  let l = counted c mcase in
+  { st_sep = sep; st_ri = ri; st_add = l }
+(* scenario ::= one-pass scenario (embedded by the extracted `embed`) | :m <nsteps> step* *)
+let scenario ts =
+  let c = { rest = ts } in
+  let s = (match peek c with
+           | Some ":m" -> ignore (next c); counted c step
+           | _ -> embed (scenario1 c)) in
+  if not (at_end c) then raise (Bad "trailing tokens");
+  s
 let pfail = function
   | FExit -> ":x" | FKilled s -> ":k " ^ pn s | FStopped -> ":s" | FFork -> ":fk" | FEintr -> ":wi" | FWait -> ":w"
   | FCheck -> ":ck" | FOther -> ":o"
 let pitem it =
   String.concat " " ([":t"; pbool it.i_started; hexi (List.length it.i_fails)] @ List.map pfail it.i_fails
                      @ [pnat it.i_calls; pnat it.i_conts; pbool it.i_lost])
+let pobs o =
+  String.concat " " (List.map pitem o.o_items @ [":end"; pn o.o_total; pbool o.o_failed; pn o.o_run; pn o.o_ign; pbool o.o_late])
 let run_line ts =
   let s = scenario ts in
-  if not (valid s) then raise (Bad "scenario is not valid (no test, status/signal/exit code out of range)")
-  else let o = run s in
-    String.concat " " (List.map pitem o.o_items @ [":end"; pn o.o_total; pbool o.o_failed; pn o.o_run; pn o.o_ign; pbool o.o_late])
+  if not (valid_m s) then raise (Bad "scenario is not valid (no test in the first pass, status/signal/exit code out of range, or a scripted/real test run outside separate-process mode)")
+  else let o = run_m s in
+    String.concat " " (List.map pobs o.mo_passes @ (if o.mo_died then [":died"] else []))
 let fail_tok c =
   match next c with
   | ":x" -> FExit | ":k" -> FKilled (n_tok (next c)) | ":s" -> FStopped | ":fk" -> FFork | ":wi" -> FEintr | ":w" -> FWait
   | ":ck" -> FCheck | ":o" -> FOther
   | t -> raise (Bad ("failure " ^ t))
+(* observation ::= pass* [:died <pass> <how> <n>]      pass ::= item* :end <failures> <isFailure> <run> <ignored> <late> *)
 let spec_line ts os =
   let s = scenario ts in
-  if not (valid s) then true else
+  if not (valid_m s) then true else
   let c = { rest = os } in
   let rec items acc =
     match peek c with
@@ -70,9 +94,15 @@ let spec_line ts os =
         let calls = nat_tok (next c) in let conts = nat_tok (next c) in let lost = bool_tok (next c) in
         items ({ i_started = st; i_fails = fs; i_calls = calls; i_conts = conts; i_lost = lost } :: acc)
     | _ -> List.rev acc in
-  let its = items [] in
-  (match next c with ":end" -> () | t -> raise (Bad ("expected :end, got " ^ t)));
-  let total = n_tok (next c) in let failed = bool_tok (next c) in let run = n_tok (next c) in let ign = n_tok (next c) in
-  let late = bool_tok (next c) in
-  if not (at_end c) then raise (Bad "trailing tokens in the observation");
-  spec s { o_items = its; o_total = total; o_failed = failed; o_run = run; o_ign = ign; o_late = late }
+  let rec passes acc =
+    match peek c with
+    | None -> (List.rev acc, false)
+    | Some ":died" -> c.rest <- []; (List.rev acc, true)
+    | _ ->
+      let its = items [] in
+      (match next c with ":end" -> () | t -> raise (Bad ("expected :end, got " ^ t)));
+      let total = n_tok (next c) in let failed = bool_tok (next c) in let run = n_tok (next c) in let ign = n_tok (next c) in
+      let late = bool_tok (next c) in
+      passes ({ o_items = its; o_total = total; o_failed = failed; o_run = run; o_ign = ign; o_late = late } :: acc) in
+  let (ps, died) = passes [] in
+  spec_m s { mo_passes = ps; mo_died = died }
